@@ -29,6 +29,17 @@ var C02 = mk("C02",
 		"every step compares the whole persistent state of twin and implementation. Non-trivial = at least one write happened; distinct = distinct script.",
 	base, 150, 5000, nil)
 
+var multi = Profile{Targets: 3, Sets: 4, Faults: false, Verdicts: true, DevErrors: false, Injections: true,
+	Rollbacks: false, Serializable: true, Persistent: false, Deletes: true, MaxSteps: 160, MultiBias: true, VerdictBias: true}
+
+// C01: multi-target transactions with rejecting plugins, failed and lost writes.
+var C01 = mk("C01",
+	"histories of 1-4 Sets, mostly on 2-3 targets, plugin verdicts invalid/absent on about a third of the validations, failed and lost store writes (crash between two writes), random work-set scheduling of the real reconcilers; "+
+		"monitor: a merge happens only while all proposals of the transaction are validated, a validation failure leaves no value of that transaction in any named target and is reported FAILED, a committed transaction is committed on every target. "+
+		"Non-trivial = at least one write and a multi-target transaction or a rejecting verdict; distinct = distinct script.",
+	multi, 120, 4000, monitorC01)
+
 func init() {
+	fw.Register(C01)
 	fw.Register(C02)
 }
